@@ -1045,6 +1045,30 @@ class Builder:
                         if v:
                             return [(n, 'T')], []
                         return [], [(n, 'F')]
+        if isinstance(e, ast.Name) and e.id in frame.ctx.func.params and \
+                e.id in frame.bindings and \
+                getattr(self, '_local_consts', None):
+            # ... or that was handed a loop variable of the caller whose
+            # literal value is known in this copy of the loop body
+            from .model import walk_own
+            arg, afr = frame.bindings[e.id]
+            hops = 0
+            while isinstance(arg, ast.Name) and arg.id in afr.bindings and \
+                    arg.id in afr.ctx.func.params and hops < 4:
+                arg, afr = afr.bindings[arg.id]
+                hops += 1
+            if isinstance(arg, ast.Name) and \
+                    (id(afr), arg.id) in self._local_consts and not any(
+                        isinstance(x, ast.Name) and x.id == e.id and
+                        isinstance(x.ctx, (ast.Store, ast.Del))
+                        for x in walk_own(frame.ctx.func.node)):
+                v = self._local_consts[(id(afr), arg.id)]
+                if not self.dangling:
+                    return [], []
+                n = self._emit('test', e, frame)
+                if v:
+                    return [(n, 'T')], []
+                return [], [(n, 'F')]
         if isinstance(e, ast.Name) and \
                 (id(frame), e.id) in getattr(self, '_local_consts', {}):
             v = self._local_consts[(id(frame), e.id)]
